@@ -14,6 +14,7 @@ package lexer
 
 import (
 	"strings"
+	"unicode"
 
 	"github.com/paulsonkoly/calc/types/token"
 )
@@ -96,6 +97,10 @@ func (l *Lexer) nextRune() (rune, int, error) {
 	}
 
 	c, s, err := l.rdr.ReadRune()
+	if c == EOF {
+		// a NUL character in the text is not the end of input
+		c = unicode.ReplacementChar
+	}
 	return c, s, err
 }
 
